@@ -168,7 +168,8 @@ def run_sim_case(spec, prop, extra_listeners=(), post=None, **run_kwargs):
 def apply_history(spec, device):
     """Things that happened to the Device object BEFORE the monitored run (the monitors only watch the run that follows):
     'used' = solved once with other options (terminal pinning toggled, zero field, screening toggled off);
-    'used_moved' = the same, then moved in place and back (coordinates differ from the originals by rounding only)."""
+    'used_moved' = the same, then moved in place and back (coordinates differ from the originals by rounding only);
+    'layer_edited' = the earlier run was made with other layer values (london_lambda, thickness, gamma), edited in place."""
     import copy
 
     pre = copy.deepcopy(spec)
@@ -185,7 +186,15 @@ def apply_history(spec, device):
     pre["drive"] = {"A": {"kind": "zero"}}
     if spec["drive"].get("currents", {}).get("kind") == "const":
         pre["drive"]["currents"] = spec["drive"]["currents"]
+    if spec["history"] == "layer_edited":
+        # a sweep over material parameters on ONE Device object: the earlier run saw another penetration depth / thickness /
+        # coherence-independent layer values; they are set back to this case's values before the monitored run
+        L = device.layer
+        keep = (L.london_lambda, L.thickness, L.gamma)
+        L.london_lambda, L.thickness, L.gamma = 2.0 * keep[0], 0.5 * keep[1], 3.0
     r0 = sim.run_sim(pre, [], device=device)
+    if spec["history"] == "layer_edited":
+        L.london_lambda, L.thickness, L.gamma = keep
     if r0.refused:
         return str(r0.refused)
     try:
